@@ -314,4 +314,17 @@ example : ∃ s, Reachable s ∧ s.pc 0 = .raised ∧ s.pc 2 = .returned 7 ∧ s
   obtain ⟨s, h, h0, _, h2, hs, _⟩ := exState2_pcs
   exact ⟨s, reachable_runSched Reachable.init _ h, h0, h2, by simp [hs]⟩
 
+open CffiVerif.Generated.InitOnceSteps in
+/-- **The model's steps are the source's statements, in the source's order** (skeletons re-extracted on every run
+into `Generated/InitOnceSteps.lean`): both `FFI.init_once` and `ffi_init_once` are lookup, setdefault of a pending
+entry, fast return, acquire, re-check under the lock, call, store **before** release, return; a raise skips the store
+and still releases the lock (what the step `inF → raised` of the model does). -/
+theorem steps_are_source :
+    modelSteps = python ∧ modelSteps = c ∧
+    pythonReleaseOnRaise = true ∧ pythonStoreOnlyOnSuccess = true ∧
+    cReleaseUnconditional = true ∧ cStoreOnlyOnSuccess = true ∧ cAcquireReleasesGil = true := by decide
+
+/-- … and `modelSteps` is indeed the path `next` drives a call along. -/
+theorem successPath_is_next : visit init 20 = successPath 0 := by rfl
+
 end CffiVerif.C26
